@@ -1368,6 +1368,8 @@ static int mode_sep(uint64_t seed, int nframes, const char *path)
 	for (i = 0; i < XMP_MAX_CHANNELS; i++)
 		c.mute[i] = 0;
 	c.mix = vrng_chance(45) ? 100 : vrng_range(1, 100);
+	if (getenv("C14_MIX") != NULL)	/* part of the replay record */
+		c.mix = atoi(getenv("C14_MIX"));
 	len = module_len(path);
 	if (len <= 0) {
 		printf("skip %s\n", path);
